@@ -417,17 +417,19 @@ Lemma struct_field_tokens_map phi d codec s1 s2 k ph :
 Proof.
   intros Hok Ha Hph.
   assert (Hsk := em_codec_skip_map phi d codec Hok).
-  destruct ph as [p|]; [pose proof (Hph p eq_refl) as Hp|]; clear Hph;
   destruct k as [|fs|fs]; cbn [map_ckind struct_field_tokens].
-  - cbn [rmap bind]. f_equal. rewrite !map_app, Hp. cbn [map]. fix_lits phi Hok. reflexivity.
-  - reflexivity.
+  - destruct ph as [p|]; cbn [rmap bind]; [|reflexivity].
+    f_equal. rewrite !map_app, (Hph p eq_refl). cbn [map]. fix_lits phi Hok. reflexivity.
   - rewrite (em_mapM_map
                (fun '(name, f) =>
                   let* t := field_tokens s1 f in
                   Ok (compact_attr_of codec f ++ ["pub"; name; ":"] ++ t ++ [","]))
                _ _ (map phi)).
     + destruct (mapM _ fs) as [l|e|msg]; cbn [rmap bind]; try reflexivity.
-      f_equal. rewrite !map_app, concat_map, ?Hp, ?Hsk. cbn [map]. fix_lits phi Hok. reflexivity.
+      f_equal.
+      destruct ph as [p|];
+        [rewrite !map_app, concat_map, (Hph p eq_refl), Hsk | rewrite !map_app, concat_map];
+        cbn [map]; fix_lits phi Hok; reflexivity.
     + intros [name f] _. cbn [fst snd].
       rewrite (field_tokens_map phi d codec s1 s2 f Hok Ha).
       destruct (field_tokens s1 f) as [t|e|msg]; cbn [rmap bind]; try reflexivity.
@@ -439,10 +441,237 @@ Proof.
                   Ok (compact_attr_of codec f ++ ["pub"] ++ t ++ [","]))
                _ _ (map phi)).
     + destruct (mapM _ fs) as [l|e|msg]; cbn [rmap bind]; try reflexivity.
-      f_equal. rewrite !map_app, concat_map, ?Hp, ?Hsk. cbn [map]. fix_lits phi Hok. reflexivity.
+      f_equal.
+      destruct ph as [p|];
+        [rewrite !map_app, concat_map, (Hph p eq_refl), Hsk | rewrite !map_app, concat_map];
+        cbn [map]; fix_lits phi Hok; reflexivity.
     + intros f _.
       rewrite (field_tokens_map phi d codec s1 s2 f Hok Ha).
       destruct (field_tokens s1 f) as [t|e|msg]; cbn [rmap bind]; try reflexivity.
       f_equal. rewrite !map_app, em_compact_attr_of_map_fi, (em_compact_attr_map phi d codec f Hok).
       cbn [map]. fix_lits phi Hok. reflexivity.
+Qed.
+
+Lemma enum_field_tokens_map phi d codec s1 s2 k :
+  phi_ok phi d codec ->
+  alloc_tokens (s_alloc s2) = map phi (alloc_tokens (s_alloc s1)) ->
+  enum_field_tokens s2 (map_ckind phi k) codec =
+  rmap (map phi) (enum_field_tokens s1 k codec).
+Proof.
+  intros Hok Ha. destruct k as [|fs|fs]; cbn [map_ckind enum_field_tokens].
+  - reflexivity.
+  - rewrite (em_mapM_map
+               (fun '(name, f) =>
+                  let* t := field_tokens s1 f in
+                  Ok (compact_attr_of codec f ++ [name; ":"] ++ t ++ [","]))
+               _ _ (map phi)).
+    + destruct (mapM _ fs) as [l|e|msg]; cbn [rmap bind]; try reflexivity.
+      f_equal. rewrite !map_app, concat_map. cbn [map]. fix_lits phi Hok. reflexivity.
+    + intros [name f] _. cbn [fst snd].
+      rewrite (field_tokens_map phi d codec s1 s2 f Hok Ha).
+      destruct (field_tokens s1 f) as [t|e|msg]; cbn [rmap bind]; try reflexivity.
+      f_equal. rewrite !map_app, em_compact_attr_of_map_fi, (em_compact_attr_map phi d codec f Hok).
+      cbn [map]. fix_lits phi Hok. reflexivity.
+  - rewrite (em_mapM_map
+               (fun f =>
+                  let* t := field_tokens s1 f in
+                  Ok (compact_attr_of codec f ++ t ++ [","]))
+               _ _ (map phi)).
+    + destruct (mapM _ fs) as [l|e|msg]; cbn [rmap bind]; try reflexivity.
+      f_equal. rewrite !map_app, concat_map. cbn [map]. fix_lits phi Hok. reflexivity.
+    + intros f _.
+      rewrite (field_tokens_map phi d codec s1 s2 f Hok Ha).
+      destruct (field_tokens s1 f) as [t|e|msg]; cbn [rmap bind]; try reflexivity.
+      f_equal. rewrite !map_app, em_compact_attr_of_map_fi, (em_compact_attr_map phi d codec f Hok).
+      cbn [map]. fix_lits phi Hok. reflexivity.
+Qed.
+
+Lemma em_docs_nil (docs : list string) :
+  match docs with [] => true | _ => false end = true -> docs = [].
+Proof. destruct docs; [reflexivity|discriminate]. Qed.
+
+Lemma type_ir_tokens_map phi d s1 s2 ir :
+  phi_ok phi d (ti_codec ir) ->
+  (d = false -> ir_docs_empty ir = true) ->
+  alloc_tokens (s_alloc s2) = map phi (alloc_tokens (s_alloc s1)) ->
+  type_ir_tokens s2 (map_ir phi ir) = rmap (map phi) (type_ir_tokens s1 ir).
+Proof.
+  intros Hok Hd Ha. destruct ir as [ps un dv cd k].
+  unfold ir_docs_empty in Hd. cbn [ti_codec ti_kind] in Hok, Hd.
+  unfold type_ir_tokens, map_ir. cbv zeta.
+  cbn [ti_params ti_unused ti_derives ti_codec ti_kind].
+  rewrite (derives_tokens_map phi d cd dv Hok).
+  assert (Hph : forall p, phantom_tokens un = Some p -> map phi p = p).
+  { intros p Hp. eapply phantom_tokens_map; eauto. }
+  assert (Htp := type_params_tokens_map phi d cd ps Hok).
+  destruct k as [ci|name docs vs]; cbn [map_kind].
+  - destruct ci as [n ck cdocs]. cbn [map_ci ci_kind ci_name ci_docs].
+    cbn [kind_docs_empty ci_docs] in Hd.
+    rewrite (struct_field_tokens_map phi d cd s1 s2 ck _ Hok Ha Hph).
+    destruct (struct_field_tokens s1 ck (phantom_tokens un) cd) as [fields|e|msg];
+      cbn [rmap bind]; try reflexivity.
+    f_equal. rewrite !map_app, Htp.
+    rewrite (doc_tokens_map phi d cd cdocs Hok) by (intros E; apply em_docs_nil; auto).
+    destruct ck as [|fs|fs]; cbn [map_ckind map]; fix_lits phi Hok; reflexivity.
+  - cbn [kind_docs_empty] in Hd.
+    rewrite (em_mapM_map
+               (fun '(idx, c) =>
+                  let* fields := enum_field_tokens s1 (ci_kind c) cd in
+                  Ok ((if cd then codec_index idx else []) ++
+                      doc_tokens (ci_docs c) ++ [ci_name c] ++ fields ++ [","]))
+               _ _ (map phi)).
+    + destruct (mapM _ vs) as [l|e|msg]; cbn [rmap bind]; try reflexivity.
+      f_equal. rewrite !map_app, concat_map, Htp.
+      rewrite (doc_tokens_map phi d cd docs Hok)
+        by (intros E; apply em_docs_nil; specialize (Hd E); apply andb_true_iff in Hd; tauto).
+      destruct (phantom_tokens un) as [p|];
+        [rewrite !map_app, (Hph p eq_refl)|]; cbn [map]; fix_lits phi Hok; reflexivity.
+    + intros [idx [n ck cdocs]] Hin. cbn [fst snd map_ci ci_kind ci_name ci_docs].
+      rewrite (enum_field_tokens_map phi d cd s1 s2 ck Hok Ha).
+      destruct (enum_field_tokens s1 ck cd) as [fields|e|msg]; cbn [rmap bind]; try reflexivity.
+      f_equal. rewrite !map_app, (em_codec_index_map phi d cd idx Hok).
+      rewrite (doc_tokens_map phi d cd cdocs Hok).
+      * cbn [map]. fix_lits phi Hok. reflexivity.
+      * intros E. apply em_docs_nil. specialize (Hd E). apply andb_true_iff in Hd as [_ Hd].
+        rewrite forallb_forall in Hd. apply (Hd _ Hin).
+Qed.
+
+(** ** the module tree *)
+
+(** the image of an entry: only the item changes *)
+Definition em_entry_map (phi : string -> string) (e : entry) : entry :=
+  (fst e, (fst (snd e), map_ir phi (snd (snd e)))).
+
+Lemma em_child_names_map phi es : child_names (map (em_entry_map phi) es) = child_names es.
+Proof.
+  unfold child_names. induction es as [|e es IH]; [reflexivity|].
+  cbn [map fold_right]. rewrite IH. reflexivity.
+Qed.
+
+Lemma em_under_map phi h es :
+  under h (map (em_entry_map phi) es) = map (em_entry_map phi) (under h es).
+Proof.
+  unfold under. induction es as [|e es IH]; [reflexivity|].
+  cbn [map flat_map]. rewrite map_app, IH. f_equal.
+  unfold em_entry_map at 1 2. cbn [fst snd].
+  destruct (fst e) as [|h' [|x tl]]; try reflexivity.
+  destruct (String.eqb h h'); reflexivity.
+Qed.
+
+Lemma em_here_map phi es :
+  here (map (em_entry_map phi) es) = map (em_entry_map phi) (here es).
+Proof.
+  unfold here. induction es as [|e es IH]; [reflexivity|].
+  cbn [map filter]. unfold em_entry_map at 1. cbn [fst].
+  destruct (fst e) as [|a [|b l]]; cbn [map]; rewrite IH; reflexivity.
+Qed.
+
+Lemma em_insert_str_in x h l : In x (insert_str h l) -> x = h \/ In x l.
+Proof.
+  induction l as [|y l IH]; cbn [insert_str]; intros H.
+  - destruct H as [H|[]]. left. symmetry. exact H.
+  - destruct (String.compare h y).
+    + right. exact H.
+    + destruct H as [H|H]; [left; symmetry; exact H|right; exact H].
+    + destruct H as [H|H]; [right; left; exact H|].
+      destruct (IH H) as [E|Hin]; [left; exact E|right; right; exact Hin].
+Qed.
+
+Lemma em_child_names_in h (es : list entry) :
+  In h (child_names es) -> exists e, In e es /\ In h (fst e).
+Proof.
+  unfold child_names. induction es as [|e es IH]; cbn [fold_right]; intros H; [destruct H|].
+  assert (Hrec : In h (fold_right (fun e acc => match fst e with
+                                                | h :: _ :: _ => insert_str h acc
+                                                | _ => acc
+                                                end) [] es) ->
+                 exists e0, In e0 (e :: es) /\ In h (fst e0)).
+  { intros H'. destruct (IH H') as (e0 & Hin & Hh). exists e0. split; [right; exact Hin|exact Hh]. }
+  destruct (fst e) as [|h' [|x tl]] eqn:E; try (apply Hrec; exact H).
+  apply em_insert_str_in in H as [->|H]; [|apply Hrec; exact H].
+  exists e. split; [left; reflexivity|]. rewrite E. left. reflexivity.
+Qed.
+
+Lemma em_under_in h (es : list entry) e' :
+  In e' (under h es) ->
+  exists e, In e es /\ snd e' = snd e /\ (forall seg, In seg (fst e') -> In seg (fst e)).
+Proof.
+  unfold under. intros H. apply in_flat_map in H as (e & Hin & H).
+  exists e. split; [exact Hin|].
+  destruct (fst e) as [|h' [|x tl]] eqn:E; try destruct H.
+  destruct (String.eqb h h'); [|destruct H].
+  destruct H as [<-|[]]. cbn [fst snd]. split; [reflexivity|].
+  intros seg Hs. right. exact Hs.
+Qed.
+
+Lemma em_module_tokens_S s fuel name es :
+  module_tokens s (S fuel) name es =
+  let* mods := mapM (fun h => module_tokens s fuel h (under h es)) (child_names es) in
+  let* tys := mapM (fun e => type_ir_tokens s (snd (snd e))) (here es) in
+  Ok (["pub"; "mod"; name; "{"; "use"; "super"; ":"; ":"; s_root s; ";"] ++
+      List.concat mods ++ List.concat tys ++ ["}"]).
+Proof. reflexivity. Qed.
+
+Lemma em_item_ok_phi phi d c ir : phi_ok phi d c -> item_ok d c ir -> phi_ok phi d (ti_codec ir).
+Proof.
+  intros Hok [_ Hc]. destruct c.
+  - apply phi_ok_weaken. exact Hok.
+  - rewrite Hc by reflexivity. exact Hok.
+Qed.
+
+Lemma module_tokens_map phi d c s1 s2 :
+  phi_ok phi d c ->
+  alloc_tokens (s_alloc s2) = map phi (alloc_tokens (s_alloc s1)) ->
+  s_root s2 = phi (s_root s1) ->
+  forall fuel name (es : list entry),
+    Forall (fun e => item_ok d c (snd (snd e))) es ->
+    (forall e seg, In e es -> In seg (fst e) -> phi seg = seg) ->
+    module_tokens s2 fuel (phi name) (map (em_entry_map phi) es) =
+    rmap (map phi) (module_tokens s1 fuel name es).
+Proof.
+  intros Hok Ha Hroot. induction fuel as [|fuel IH]; intros name es Hall Hseg; [reflexivity|].
+  rewrite !em_module_tokens_S, em_child_names_map, em_here_map.
+  rewrite (em_mapM_rmap (fun h => module_tokens s1 fuel h (under h es)) _ (map phi)).
+  - rewrite (em_mapM_map (fun e => type_ir_tokens s1 (snd (snd e))) _ _ (map phi)).
+    + destruct (mapM _ (child_names es)) as [mods|e|msg]; cbn [rmap bind]; try reflexivity.
+      destruct (mapM _ (here es)) as [tys|e|msg]; cbn [rmap bind]; try reflexivity.
+      f_equal. rewrite !map_app, !concat_map, Hroot. cbn [map]. fix_lits phi Hok. reflexivity.
+    + intros e He. unfold em_entry_map. cbn [fst snd].
+      apply filter_In in He as [He _].
+      rewrite Forall_forall in Hall. specialize (Hall e He). cbn beta in Hall.
+      apply (type_ir_tokens_map phi d s1 s2 (snd (snd e))); [|apply Hall|exact Ha].
+      eapply em_item_ok_phi; eauto.
+  - intros h Hh. apply em_child_names_in in Hh as (e & He & Hh).
+    assert (Eh : phi h = h) by (eapply Hseg; eauto).
+    rewrite em_under_map. rewrite <- Eh at 1. apply IH.
+    + apply Forall_forall. intros e' He'. apply em_under_in in He' as (e0 & He0 & Es & _).
+      rewrite Es. rewrite Forall_forall in Hall. apply (Hall e0 He0).
+    + intros e' seg He' Hs. apply em_under_in in He' as (e0 & He0 & _ & Hsub).
+      apply (Hseg e0 seg He0). apply Hsub. exact Hs.
+Qed.
+
+Lemma em_max_depth_map_items f m : max_depth (map_items f m) = max_depth m.
+Proof.
+  unfold max_depth, map_items. induction m as [|e m IH]; [reflexivity|].
+  cbn [map fold_right fst]. rewrite IH. reflexivity.
+Qed.
+
+Lemma emit_module_map phi d c s1 s2 (m : items) :
+  phi_ok phi d c ->
+  Forall (fun e => item_ok d c (snd (snd e))) m ->
+  (forall e seg, In e m -> In seg (fst e) -> phi seg = seg) ->
+  alloc_tokens (s_alloc s2) = map phi (alloc_tokens (s_alloc s1)) ->
+  s_root s2 = phi (s_root s1) ->
+  emit_module s2 (map_items (map_ir phi) m) = rmap (map phi) (emit_module s1 m).
+Proof.
+  intros Hok Hall Hseg Ha Hroot. unfold emit_module.
+  rewrite em_max_depth_map_items, Hroot.
+  replace (map (fun e => (fst e, (fst e, snd (snd e)))) (map_items (map_ir phi) m))
+    with (map (em_entry_map phi) (map (fun e : list string * (N * type_ir) => (fst e, (fst e, snd (snd e)))) m)).
+  - apply (module_tokens_map phi d c s1 s2 Hok Ha Hroot).
+    + apply Forall_forall. intros e' He'. apply in_map_iff in He' as (e & <- & He).
+      cbn [fst snd]. rewrite Forall_forall in Hall. apply (Hall e He).
+    + intros e' seg He' Hs. apply in_map_iff in He' as (e & <- & He).
+      cbn [fst] in Hs. apply (Hseg e seg He Hs).
+  - unfold map_items. rewrite !map_map. apply map_ext. intros e. reflexivity.
 Qed.
